@@ -238,9 +238,51 @@ func (c *Ctx) foundPtr(v ssa.Value, id ssa.Value, at *ssa.BasicBlock, depth int)
 		if _, ok := x.X.(*ssa.IndexAddr); ok && at != nil && underIdEquality(at, id) {
 			return true
 		}
+		// slice element at the position an index-finder returned for this id
+		if ia, ok := x.X.(*ssa.IndexAddr); ok && c.foundIdx(ia.Index, id) {
+			return true
+		}
 		return false
 	}
 	return false
+}
+
+// foundIdx: v is the result of a module helper that receives id and whose every return is
+// either a negative constant (not found) or made under an id-equality branch.
+func (c *Ctx) foundIdx(v ssa.Value, id ssa.Value) bool {
+	call, ok := eng.StripConv(v).(*ssa.Call)
+	if !ok {
+		return false
+	}
+	g := eng.StaticCallee(call.Common())
+	if g == nil || !eng.InModule(g) || len(g.Blocks) == 0 {
+		return false
+	}
+	var gid ssa.Value
+	for i, a := range call.Call.Args {
+		if derivesFrom(a, id, 0) && i < len(g.Params) {
+			gid = g.Params[i]
+		}
+	}
+	if gid == nil {
+		return false
+	}
+	okAll, nFound := true, 0
+	eng.EachInstr(g, func(in ssa.Instruction) {
+		ret, ok := in.(*ssa.Return)
+		if !ok || len(ret.Results) != 1 {
+			return
+		}
+		if k, isC := eng.ConstInt(ret.Results[0]); isC && k < 0 {
+			return
+		}
+		if underIdEquality(ret.Block(), gid) {
+			nFound++
+			return
+		}
+		okAll = false
+	})
+	return okAll && nFound > 0
 }
 
 // foundWitness: ret is dominated by an id-equality edge or by `p != nil` with foundPtr(p).
@@ -258,6 +300,12 @@ func (c *Ctx) foundWitness(ret *ssa.Return, id ssa.Value) (string, bool) {
 				return "id-equality branch at " + c.P.InstrPos(eng.IfOf(b)), true
 			}
 			r, ok := eng.EdgeRel(b, k)
+			if ok {
+				// position >= 0 returned by an index-finder for this id
+				if k0, isC := eng.ConstInt(r.Y); isC && (r.Op == token.GEQ && k0 == 0 || r.Op == token.GTR && k0 == -1 || r.Op == token.NEQ && k0 == -1) && c.foundIdx(r.X, id) {
+					return "found-position test at " + c.P.InstrPos(eng.IfOf(b)), true
+				}
+			}
 			if !ok || r.Op != token.NEQ {
 				continue
 			}
